@@ -16,8 +16,8 @@ SEMANTIC = [
 RESOURCE = ['Resource limit (rlimit) exceeded', 'rlimit', 'timed out', 'timeout']
 
 
-def run_verus(path, seed=0, rlimit=None, threads=8, extra=None):
-    cmd = [VERUS, path, '--error-format=json', '--output-json', '--time', '--multiple-errors', '20', '--num-threads', str(threads)]
+def run_verus(path, seed=0, rlimit=None, threads=8, extra=None, multiple_errors=20):
+    cmd = [VERUS, path, '--error-format=json', '--output-json', '--time', '--multiple-errors', str(multiple_errors), '--num-threads', str(threads)]
     if rlimit:
         cmd += ['--rlimit', str(rlimit)]
     if seed:
